@@ -95,6 +95,7 @@ impl StatusUpdater for ChannelUpdater {
             // Avoid saturating the queue with small writes
             let bsize = self.config.block_size;
             let prev_written = self.sent.fetch_add(bytes, Ordering::Relaxed);
+            verif_point!("updater-after-fetch-add");
             if ((prev_written + bytes) / bsize) > (prev_written / bsize) {
                 self.chan_tx.send(update)?;
             }
